@@ -20,7 +20,7 @@ META = dict(
           "requires: global values equal; per-node values equal on untouched "
           "nodes and both twins carry v's value; pairwise values equal on "
           "untouched pairs and the twin's row equals v's row (rtol 1e-9, atol "
-          "1e-12, relative to the scale of the result; 1e-4 for the ARPACK eigenvector (tol=1e-8 relative to the shift W^2, divided by the spectral gap), 1e-6 for the random-walk betweennesses that solve linear systems; entries that are non-finite / >1e9 on either side are undefined points of the typical-weight correction and skipped). Graphs: every labelled "
+          "1e-12, relative to the scale of the result; 1e-4 for the ARPACK eigenvector (tol=1e-8 relative to the shift W^2, divided by the spectral gap), 1e-6 for the random-walk betweennesses that solve linear systems (only for node-weight dynamic range <= 1e4, the conditioning of those systems grows with its square); entries that are non-finite / >1e9 on either side are undefined points of the typical-weight correction and skipped). Graphs: every labelled "
           "undirected graph with <=4 (quick) / <=5 (thorough) nodes and "
           "directed graph with <=3 / <=4 nodes (measures defined on "
           "disconnected graphs only, otherwise connected ones), every node v, "
@@ -262,6 +262,14 @@ def one_split(ctx, Network, A, w, W, directed, v, p, cid, measures,
             if need == C and not conn:
                 continue
             if m.endswith("arenas_betweenness") and n > 9:
+                continue
+            if ("newman" in m or "arenas" in m) and \
+                    w2.max() / w2.min() > 1e4:
+                # these measures invert a weighted Laplacian-type matrix
+                # whose condition number grows with (w_max/w_min)^2: beyond
+                # a dynamic range of 1e4 rounding alone exceeds any fixed
+                # tolerance (observed 6e-6 at a range of 1e7)
+                ctx.count("illconditioned_random_walk_skipped")
                 continue
             ok0, x0 = ctx.call(getattr(n0, m), **kw)
             ok1, x1 = ctx.call(getattr(n1, m), **kw)
